@@ -2090,7 +2090,7 @@ class ktensor:
             len(vector) > 0
             and isinstance(vector, np.ndarray)
             and isinstance(
-                np.atleast_1d(vector.squeeze())[0], (int, float, np.int_, np.float64)
+                np.atleast_1d(vector.squeeze())[0], (int, float, np.number)
             )
         ):
             return self.ttv([vector], dims, exclude_dims)
